@@ -103,3 +103,27 @@ def block_index_exact(e, n, region, ne, nn):
     cols = axis(e, w, ea, ne)
     rows = axis(n, s, no, nn)
     return {r * ne + c for r in rows for c in cols}
+
+
+def axis_layouts(lo, hi, size=None, spacing=None, adjust="spacing", pixel=False):
+    """All admissible exact node layouts of one axis: {k: [Fractions]} and the largest end value."""
+    if size is not None:
+        nodes, _ = line_nodes_size(lo, hi, size, pixel)
+        return {size: nodes}, float(hi)
+    ks, _ = n_intervals(lo, hi, spacing)
+    out = {}
+    mx = float(hi)
+    for k in ks:
+        nodes, _, end = line_nodes_spacing(lo, hi, spacing, adjust, pixel, k)
+        out[k] = nodes
+        mx = max(mx, float(end))
+    return out, mx
+
+
+def match_axis(got, layouts, scale_vals, nulp=4):
+    """Return the key of the first admissible layout that `got` (floats) matches within nulp ulps, else None."""
+    got = list(got)
+    for k, nodes in layouts.items():
+        if len(nodes) == len(got) and close_nodes(got, nodes, scale_vals, nulp):
+            return k
+    return None
